@@ -127,20 +127,14 @@ def aggregate(stage, rows):
                 if isinstance(row[col], aglib.F) and qast.bits2f(row[col].bits) != qast.bits2f(row[col].bits):
                     row[col] = None
             elif t in ('min', 'max'):
-                # the extremum is one of the values, exactly (Python compares ints and floats by value); NaN is no candidate;
-                # an infinite extremum is reported as None
+                # the extremum is one of the values, exactly (Python compares ints and floats by value); NaN is no candidate
                 ex = [exact_of(r[c]) for r in g['rows'] if c in r and exact_of(r[c]) is not None]
                 ex = [x for x in ex if x == x]
                 if not ex:
                     row[col] = None
                 else:
                     m = min(ex) if t == 'min' else max(ex)
-                    if isinstance(m, float):
-                        row[col] = None if m in (float('inf'), float('-inf')) else from_float(m)
-                    else:
-                        # an integer wins; but an infinite float on the same side hides everything
-                        inf_side = float('-inf') if t == 'min' else float('inf')
-                        row[col] = None if any(isinstance(x, float) and x == inf_side for x in ex) else m
+                    row[col] = from_float(m) if isinstance(m, float) else m      # an infinite extremum is a value (prints as null in JSON)
         out.append({k: (None if isinstance(v, aglib.F) and (qast.bits2f(v.bits) != qast.bits2f(v.bits) or abs(qast.bits2f(v.bits)) == float('inf')) else v)
                     for k, v in row.items()})
     return out
